@@ -14,7 +14,7 @@ import json, os, re, sys
 HERE = os.path.dirname(os.path.abspath(__file__))
 sys.path.insert(0, os.path.dirname(HERE))
 from rules.common import *
-import panics
+import panics, slices
 
 A = []  # (regex on tkey, why, backing rule or None)
 
@@ -199,7 +199,7 @@ def main():
     out = []
     open_sites = []
     finds = []
-    seen = set()
+    seen = {}
     for cn in ['minidump', 'minidump_common', 'breakpad_symbols', 'minidump_unwind', 'minidump_processor', 'minidump_stackwalk']:
         c = prog.crate(cn)
         fns = [f for f in c.fns if not (f.mac and f.mac.startswith('derive('))]
@@ -219,12 +219,20 @@ def main():
             if hit[0].startswith('FIND'):
                 finds.append((s, hit[0]))
                 continue
+            items = slices.site_items(s.fn, c, s.term, s.bb)
+            dg, hs = slices.digest(items)
             if k in seen:
+                e = seen[k]
+                if dg not in e['slices']:
+                    e['slices'].append(dg)
+                    e['slice_items'] = sorted(set(e['slice_items']) | set(hs))
                 continue
-            seen.add(k)
             e = {'key': k, 'why': hit[0], 'where': '%s:%d' % (s.fn.file, s.line)}
             if hit[1]:
                 e['backing'] = hit[1]
+            e['slices'] = [dg]
+            e['slice_items'] = hs
+            seen[k] = e
             out.append(e)
     with open(os.path.join(HERE, 'panic_table.json'), 'w') as fh:
         json.dump({'entries': out}, fh, indent=0)
